@@ -107,10 +107,10 @@ def eliot_friendly_generator_function(original):
                     return value_out
 
                 value_out = context.run(go)
-            except StopIteration:
+            except StopIteration as e:
                 # When the generator raises this, it is signaling
-                # completion.  Leave the loop.
-                break
+                # completion.  Pass its return value along.
+                return e.value
             else:
                 try:
                     # Pass the generator's result along to whoever is
